@@ -187,22 +187,44 @@ def OpenTight (h : H) (s : Store) : Prop :=
   h.dataoffset = (hdrLenOf h : Nat) ∧ h.peak = none ∧ h.dataend = 0 ∧
   (s.bytes.length : Int) = h.dataoffset + h.frames * (h.bw : Int)
 
-theorem RwInv_open (ix : Nat) (s0 : Store) (fmt : Nat) (ch sr : Int) (h : H) (s : Store)
-    (ho : openHandle ix s0 .rw fmt ch sr = .ok h s) (ht : OpenTight h s) : RwInv h s := by
+/-- … or, in a WAV, exactly the zero pad byte behind an odd-length data chunk; a PEAK table, if any, has one entry per
+    channel and its chunk sits in front of the data -/
+def OpenPadded (h : H) (s : Store) : Prop :=
+  h.dataoffset = (hdrLenOf h : Nat) ∧ PeakOk h ∧ (h.container ≠ .wav → h.dataend = 0) ∧
+  ∃ t : Nat, TailOk h t ∧ (s.bytes.length : Int) = h.dataoffset + h.frames * (h.bw : Int) + t ∧
+    s.bytes.drop (s.bytes.length - t) = zeros t
+
+theorem OpenTight.padded {h : H} {s : Store} (ht : OpenTight h s) : OpenPadded h s := by
+  obtain ⟨t1, t2, t3, t4⟩ := ht
+  have hpk : PeakOk h := fun ps hp => by rw [t2] at hp; cases hp
+  exact ⟨t1, hpk, fun _ => t3, 0, Or.inl rfl, by rw [t4]; simp, by simp [zeros]⟩
+
+theorem RwInv_open_padded (ix : Nat) (s0 : Store) (fmt : Nat) (ch sr : Int) (h : H) (s : Store)
+    (ho : openHandle ix s0 .rw fmt ch sr = .ok h s) (ht : OpenPadded h s) : RwInv h s := by
   have hi := HInv_openHandle ix s0 .rw fmt ch sr h s ho
   obtain ⟨hm, hl, hr, hf, hw, hp, _, _⟩ := open_rw_facts ix s0 fmt ch sr h s ho
-  obtain ⟨t1, t2, t3, t4⟩ := ht
+  obtain ⟨t1, t2, t3, t, tk, t4, t5⟩ := ht
   obtain ⟨F, hF⟩ := Int.eq_ofNat_of_zero_le hf
-  have hlen : s.bytes.length = hdrLenOf h + F * h.bw := by
+  have hlen : s.bytes.length = hdrLenOf h + F * h.bw + t := by
     rw [t1, hF] at t4
-    have : ((s.bytes.length : Nat) : Int) = ((hdrLenOf h + F * h.bw : Nat) : Int) := by rw [t4]; push_cast; rfl
+    have : ((s.bytes.length : Nat) : Int) = ((hdrLenOf h + F * h.bw + t : Nat) : Int) := by rw [t4]; push_cast; rfl
     exact Int.ofNat.inj this
-  refine ⟨0, F, F, s.bytes.take (hdrLenOf h), s.bytes.drop (hdrLenOf h), ?_⟩
-  refine ⟨hm, hi.ch_pos, hi.nb_pos, hr, by rw [hw, hF], hF, t1, t2, t3, (List.take_append_drop _ _).symm,
-    by rw [List.length_take]; omega, by rw [List.length_drop]; omega, ?_, fun hc => ?_, fun hc => ?_⟩
+  refine ⟨0, F, F, s.bytes.take (hdrLenOf h), (s.bytes.drop (hdrLenOf h)).take (F * h.bw), ?_⟩
+  refine ⟨hm, hi.ch_pos, hi.nb_pos, hr, by rw [hw, hF], hF, t1, t2, t3, ⟨t, ?_, tk⟩,
+    by rw [List.length_take]; omega, by rw [List.length_take, List.length_drop]; omega, ?_, fun hc => ?_, fun hc => ?_⟩
+  · have e1 : s.bytes.drop (hdrLenOf h) =
+        (s.bytes.drop (hdrLenOf h)).take (F * h.bw) ++ (s.bytes.drop (hdrLenOf h)).drop (F * h.bw) :=
+      (List.take_append_drop _ _).symm
+    have e2 : (s.bytes.drop (hdrLenOf h)).drop (F * h.bw) = zeros t := by
+      rw [List.drop_drop, ← t5]; congr 1; omega
+    rw [← e2, ← e1, List.take_append_drop]
   · rw [t1] at hp; omega
   · rw [hl] at hc; cases hc
   · rw [hl] at hc; cases hc
+
+theorem RwInv_open (ix : Nat) (s0 : Store) (fmt : Nat) (ch sr : Int) (h : H) (s : Store)
+    (ho : openHandle ix s0 .rw fmt ch sr = .ok h s) (ht : OpenTight h s) : RwInv h s :=
+  RwInv_open_padded ix s0 fmt ch sr h s ho ht.padded
 
 /-- a new (empty) file opened RDWR: any container -/
 theorem open_fresh_tight (ix : Nat) (s0 : Store) (fmt : Nat) (ch sr : Int) (h : H) (s : Store)
